@@ -296,7 +296,14 @@ impl<'a> Gen<'a> {
         use Scalar::*;
         let mut v: Vec<Doc> = Self::kind_reps();
         match sc {
-            U8 => v.extend([Doc::Int(256), Doc::Int(3), Doc::Int(250), Self::awkward_string()]),
+            U8 => v.extend([
+                Doc::Int(256),
+                Doc::Int(3),
+                Doc::Int(250),
+                Self::awkward_string(),
+                // an offending *object* whose member names need JSON escaping when quoted
+                Doc::Obj(vec![("the \"best\"".to_string(), Doc::Int(1)), ("c:\\temp\t".to_string(), Doc::Null)]),
+            ]),
             I8 => v.extend([Doc::Int(128), Doc::Neg(-129), Doc::Neg(-128)]),
             NzU8 => v.extend([Doc::Int(0), Doc::Int(256)]),
             NzI8 => v.extend([Doc::Int(0), Doc::Int(128), Doc::Neg(-129)]),
